@@ -3,7 +3,7 @@ from __future__ import annotations
 
 import ast
 
-from ..engine import AnalysisError, PropertySpec, norm
+from ..engine import AnalysisError, MechanismMissing, PropertySpec, norm
 from ..pyutil import call_name, calls, const_str, is_name, literal, walk_local
 from ._api import API, MODEL, SIG, db_accesses, guards_of, key_values, signature_of
 
@@ -46,7 +46,7 @@ def r19_1(ctx, rep):
         if m == "r":
             read.setdefault(k, []).append(n)
     if len(read) < 15:
-        raise AnalysisError(R, "only %d distinct keys read in load_model" % len(read))
+        raise MechanismMissing(R, "only %d distinct keys read in load_model" % len(read))
     for k in sorted(read):
         ok = k in written
         why = "load_model reads db[%r] but save_model never writes it: loading any cache raises KeyError" % k
@@ -111,7 +111,7 @@ def r19_2(ctx, rep):
     ld = ctx.func(API, "load_model", R)
     fields = sorted(_model_fields(ctx, R) - NOT_CACHED)
     if len(fields) < 10:
-        raise AnalysisError(R, "fewer than 10 cached Model fields")
+        raise MechanismMissing(R, "fewer than 10 cached Model fields")
     txt = [norm(s) for s in ast.walk(ld) if isinstance(s, (ast.Assign, ast.Expr))]
     for f in fields:
         ok = any(t.startswith("model.%s = " % f) for t in txt) or any(t.startswith("model.%s.append(" % f) or t.startswith("model.%s.extend(" % f) for t in txt) \
@@ -166,7 +166,7 @@ def r19_3(ctx, rep):
         if isinstance(lp, ast.For) and isinstance(literal(lp.iter), list) and any("__metadata_dependent" in norm(x) for x in ast.walk(lp)):
             order_s = literal(lp.iter)
     if order_m is None:
-        raise AnalysisError(R, "category list of variable_metadata_function not found")
+        raise MechanismMissing(R, "category list of variable_metadata_function not found")
     rep.ob(R, API + ":load_model", "variables_with_metadata", order_l == order_m,
            "load_model zips the metadata function's outputs with %s but the function produces them in the order %s" % (order_l, order_m))
     rep.ob(R, API + ":save_model", "__metadata_dependent categories", order_s is not None and sorted(order_s) == sorted(order_m),
@@ -198,7 +198,7 @@ def r19_4(ctx, rep):
             if isinstance(s, ast.Assign) and is_name(s.targets[0], var) and isinstance(s.value, ast.List):
                 sites.append(("%s:%s" % (rel, q), var, signature_of([e.value if isinstance(e, ast.Starred) else e for e in s.value.elts])))
     if len(sites) < 9:
-        raise AnalysisError(R, "only %d signature sites found, expected 9" % len(sites))
+        raise MechanismMissing(R, "only %d signature sites found, expected 9" % len(sites))
     for site, key, sig in sites:
         rep.ob(R, site, key, sig == SIG, "argument order %s differs from %s: values are fed to the wrong inputs" % (sig, SIG))
 
